@@ -122,6 +122,7 @@ class Tables:
         self.impls = {}     # (file, line) -> (selftype, trait or None)
         self.aliases = {}       # type alias name -> last ident of its target
         self.alias_full = {}    # type alias name -> full target text
+        self.struct_field_types = {}   # (struct name, file) -> {field: type text}
         self.enum_decls = {}    # name -> [(file, variants)]
         self.struct_decls = {}  # name -> [(file, fieldnames | arity)]
         self._std()
@@ -191,13 +192,15 @@ class Tables:
                 self.struct_decls.setdefault(m.group(1), []).append((rel, len([p for p in _split_top(src[k + 1:e]) if p.strip()])))
                 continue
             e = _match(src, k)
-            names = []
+            names, ftypes = [], {}
             for p in _split_top(src[k + 1:e]):
                 p = _strip_attrs(p)
                 fm = re.match(r'(?:pub(?:\([^)]*\))?\s+)?(?:r#)?([A-Za-z_]\w*)\s*:', p)
                 if fm:
                     names.append(fm.group(1))
+                    ftypes[fm.group(1)] = re.sub(r'\s+', ' ', p[fm.end():].strip())
             self.struct_decls.setdefault(m.group(1), []).append((rel, names))
+            self.struct_field_types.setdefault((m.group(1), rel), {}).update(ftypes)
         for m in re.finditer(r'\btype\s+([A-Za-z_]\w*)\s*(?:<[^=;]*>)?\s*=\s*([^;]+);', src):
             self.aliases.setdefault(m.group(1), _last_ident(m.group(2)))
             self.alias_full.setdefault(m.group(1), m.group(2))
@@ -284,6 +287,14 @@ class Tables:
     def struct_fields(self, ty):
         name, hint = type_name_hint(ty)
         return self._pick(self.struct_decls.get(name), hint, type_path(ty))
+
+
+def field_types(tables, name, file_hint):
+    """{field: type text} of the struct `name` declared in a file whose path contains `file_hint`"""
+    for (n, rel), d in tables.struct_field_types.items():
+        if n == name and file_hint in rel:
+            return d
+    return None
 
 
 def skeleton(tables, t):
